@@ -338,7 +338,10 @@ class World:
                                 f'{self.log[y][c]}')
                         # as long as the receiver keeps reading every byte
                         # written is delivered (C07 / C08)
-                        if consuming and (x, c) not in self.closed_by_app \
+                        # (also behind a close(): "any unsent buffered data
+                        # will be flushed before the channel is closed" - only
+                        # abort() may drop it)
+                        if consuming \
                                 and (y, c) not in self.rough \
                                 and (x, c) not in self.rough \
                                 and self.rxbytes[y][c] != self.wbytes[x][c]:
